@@ -3519,6 +3519,10 @@ def canon_mcall(p, args):
     if p == ITER + "find_map" and len(args) == 2 and args[0][0] == "mcall" and args[0][1] == PHF + "entries" and args[1][0] == "lam" and args[1][1] == 1:
         body = args[1][2]
         val = ["fld", ["lp", 0], "1"]
+        if body[0] == "ifv" and body[3] == NONE and body[2] == ["ctor", "core::option::Option::Some", [val]]:
+            body = ["mcall", "core::bool::<impl bool>::then_some", [body[1], val]]   # if pred { Some(v) } else { None }
+        if body[0] == "mcall" and body[1] == "core::bool::<impl bool>::then" and len(body[2]) == 2 and body[2][1] == ["lam", 0, val]:
+            body = ["mcall", "core::bool::<impl bool>::then_some", [body[2][0], val]]
         if body[0] == "mcall" and body[1] == "core::bool::<impl bool>::then_some" and body[2][1] == val and not occurs(subst(body[2][0], val, ["x"]), ["lp", 0]):
             # entries().find_map(|(_, v)| pred(v).then_some(v)) is values().find(pred)
             return ["mcall", ITER + "find", [["mcall", PHF + "values", args[0][2]], ["lam", 1, subst(body[2][0], val, ["lp", 0])]]]
